@@ -499,8 +499,17 @@ fn parse_inner<J: Jet>(
                 }
             };
 
-            let name = Option::<Arc<str>>::clone(&data.node.name)
-                .unwrap_or_else(|| Arc::from(namer.assign_name(inner.as_ref()).as_str()));
+            let name = Option::<Arc<str>>::clone(&data.node.name).unwrap_or_else(|| {
+                // Generated names must not collide with names that the user has chosen,
+                // or the rendered program would define a name twice.
+                let mut fresh = namer.assign_name(inner.as_ref());
+                if !matches!(inner, node::Inner::Witness(WitnessOrHole::TypedHole(..))) {
+                    while resolved_map.contains_key(fresh.as_str()) {
+                        fresh = namer.assign_name(inner.as_ref());
+                    }
+                }
+                Arc::from(fresh.as_str())
+            });
 
             let node = NamedConstructNode::new(
                 &inference_context,
